@@ -87,6 +87,8 @@ type vfC11Scenario struct {
 	AliceEmail     bool
 	Pre            []vfC11DocState // history of d1 before the operation
 	New            vfC11DocState   // what the operation writes
+	Branch         bool            // pre-state has a second, conflicting leaf (sibling of the last revision)
+	BranchState    vfC11DocState   // what that leaf holds
 	PushParent     int             // for push: index into the revision list of d1 (clamped)
 	External       string          // for import: "set" or "delete"
 	ImportVia      string          // "get" or "put"
@@ -119,6 +121,9 @@ func (s vfC11Scenario) String() string {
 	}
 	if isDoc || strings.HasPrefix(s.Kind, "reject:") {
 		out += fmt.Sprintf(" allowConflicts=%v ccvOff=%v as=%q pre=[%s] new=%s", s.AllowConflicts, s.CCVOff, s.AsUser, strings.Join(pre, " "), s.New)
+		if s.Branch {
+			out += " branch=" + s.BranchState.String()
+		}
 		if s.Kind == "push" {
 			out += fmt.Sprintf(" pushParent=%d", s.PushParent)
 		}
@@ -143,7 +148,7 @@ func (s vfC11Scenario) String() string {
 	return out
 }
 
-var vfC11DocKinds = []string{"create", "update", "delete", "attach-new", "attach-drop", "push", "import"}
+var vfC11DocKinds = []string{"create", "update", "delete", "attach-new", "attach-drop", "push", "import", "branch-update", "branch-delete"}
 var vfC11PrincKinds = []string{"user-create", "user-update", "user-delete", "role-create", "role-update", "role-delete", "session-create", "session-delete", "user-email", "user-register"}
 
 var vfC11AttPool = []string{"hello attachment", "\x00\x01binary\xff\xfe", "a somewhat longer attachment body 0123456789", "x"}
@@ -202,13 +207,38 @@ func vfC11GenScenario(rt *rapid.T, kinds []string) vfC11Scenario {
 		return &sc.Pre[len(sc.Pre)-1]
 	}
 	switch sc.Kind {
-	case "update", "delete", "attach-new", "attach-drop", "push", "import":
+	case "update", "delete", "attach-new", "attach-drop", "push", "import", "branch-update", "branch-delete":
 		if len(sc.Pre) == 0 {
 			sc.Pre = []vfC11DocState{vfC11GenDocState(rt, "pre0", false)}
 		}
 	}
+	// a conflicting, non-winning leaf next to the current revision; bodies above the inline limit live
+	// in their own _sync:rb: documents, which the operation under test may retire (child on / tombstone
+	// of that leaf, tombstone of the winner that promotes it)
+	sc.BranchState = vfC11DocState{V: 700 + rapid.IntRange(0, 9).Draw(rt, "branch.v"), Chans: rapid.SampledFrom([][]string{{"A"}, {"B"}, {}}).Draw(rt, "branch.chans"),
+		Big: rapid.IntRange(0, 3).Draw(rt, "branch.big") != 0}
+	wantBranch := rapid.IntRange(0, 2).Draw(rt, "branch") == 0
 	switch sc.Kind {
-	case "delete":
+	case "branch-update", "branch-delete":
+		sc.Branch = true
+	case "update", "delete", "push":
+		sc.Branch = wantBranch
+	}
+	if sc.Branch {
+		sc.AllowConflicts = true
+		for len(sc.Pre) < 2 {
+			sc.Pre = append(sc.Pre, vfC11GenDocState(rt, fmt.Sprintf("preX%d", len(sc.Pre)), false))
+		}
+		for i := range sc.Pre {
+			sc.Pre[i].Atts = nil // attachments on conflicting branches are C14's subject
+		}
+		sc.Pre[len(sc.Pre)-1].Deleted = false
+		sc.Pre[len(sc.Pre)-2].Deleted = false
+		sc.Pre[len(sc.Pre)-1].Big = sc.Pre[len(sc.Pre)-1].Big || sc.BranchState.Big
+		sc.New.Atts = nil
+	}
+	switch sc.Kind {
+	case "delete", "branch-delete":
 		last().Deleted = false
 		sc.New = vfC11DocState{Deleted: true}
 	case "attach-new":
@@ -261,6 +291,11 @@ type vfC11World struct {
 	excluded  []string // known-finding signatures met while checking
 	skipLeaves bool    // leave out the "every leaf readable" clause (known finding)
 	anyNewRev  bool    // timeout class: the new revision's id is not known in advance
+	otherRev   string          // the non-winning leaf (Branch scenarios)
+	otherState vfC11DocState
+	targetRev  string          // revision the operation builds on
+	knownRevs  map[string]bool // revisions of d1 in the pre-state
+	preLeaves  map[string]string // "docid rev" -> body as served before the operation
 }
 
 func (wd *vfC11World) close() {
@@ -402,7 +437,94 @@ func vfC11Build(t testing.TB, sc vfC11Scenario) (wd *vfC11World, err error) {
 		wd.revs = append(wd.revs, rev)
 		wd.cur, wd.curRev = st, rev
 	}
+	if sc.Branch && len(wd.revs) >= 2 {
+		pi := len(wd.revs) - 2
+		gen, _ := ParseRevID(ctx, wd.revs[pi])
+		branchRev := fmt.Sprintf("%d-%s", gen+1, "00c11branch")
+		hist := []string{branchRev}
+		for i := pi; i >= 0; i-- {
+			hist = append(hist, wd.revs[i])
+		}
+		if _, _, err = env.Coll.PutExistingRevWithBody(ctx, "d1", vfC11Body(sc.BranchState), hist, false, ExistingVersionWithUpdateToHLV); err != nil {
+			return wd, fmt.Errorf("pre branch: %w", err)
+		}
+		var doc *Document
+		if doc, err = env.Coll.GetDocument(ctx, "d1", DocUnmarshalAll); err != nil {
+			return wd, fmt.Errorf("pre branch read: %w", err)
+		}
+		if doc.GetRevTreeID() == branchRev {
+			wd.otherRev, wd.otherState = wd.curRev, wd.cur
+			wd.curRev, wd.cur = branchRev, sc.BranchState
+		} else {
+			wd.otherRev, wd.otherState = branchRev, sc.BranchState
+		}
+	}
+	wd.targetRev = wd.curRev
+	if sc.Kind == "create" {
+		wd.targetRev = ""
+	}
+	if sc.Kind == "branch-update" || sc.Kind == "branch-delete" {
+		wd.targetRev = wd.otherRev
+	}
 	return wd, nil
+}
+
+// recordLeaves remembers what every leaf revision of the existing documents serves (cold read), so
+// that a failed operation can be shown to have left each of them readable with the same content.
+func (wd *vfC11World) recordLeaves() error {
+	wd.preLeaves = map[string]string{}
+	wd.knownRevs = map[string]bool{}
+	ids := []string{"d2"}
+	if len(wd.sc.Pre) > 0 && wd.sc.Kind != "import" && !strings.HasPrefix(wd.sc.Kind, "reject:import") {
+		ids = append(ids, "d1") // (an externally changed d1 would be imported by this very read)
+	}
+	for _, id := range ids {
+		doc, err := wd.env.Coll.GetDocument(wd.env.Ctx, id, DocUnmarshalAll)
+		if err != nil {
+			return fmt.Errorf("pre-state read of %s: %w", id, err)
+		}
+		for rev := range doc.History {
+			if id == "d1" {
+				wd.knownRevs[rev] = true
+			}
+		}
+		for _, leaf := range doc.History.GetLeaves() {
+			wd.preLeaves[id+" "+leaf] = wd.serveRev(id, leaf)
+		}
+	}
+	wd.env.DBC.FlushRevisionCacheForTest()
+	return nil
+}
+
+func (wd *vfC11World) serveRev(id, rev string) string {
+	body, err := wd.env.Coll.Get1xRevBody(wd.env.Ctx, id, rev, false, []string{})
+	if err != nil {
+		return "error: " + err.Error()
+	}
+	b, err := base.JSONMarshalCanonical(body)
+	if err != nil {
+		return "error: " + err.Error()
+	}
+	return string(b)
+}
+
+// checkLeaves: every leaf revision of the pre-state is still served, cold, with the same content.
+func (wd *vfC11World) checkLeaves() string {
+	wd.env.DBC.FlushRevisionCacheForTest()
+	for _, key := range vfSortedKeys(wd.preLeaves) {
+		parts := strings.SplitN(key, " ", 2)
+		if now := wd.serveRev(parts[0], parts[1]); now != wd.preLeaves[key] {
+			return fmt.Sprintf("leaf revision %s of %s was served as %s before the failed operation and is served as %s after it", parts[1], parts[0], vfC11Clip(wd.preLeaves[key]), vfC11Clip(now))
+		}
+	}
+	return ""
+}
+
+func vfC11Clip(s string) string {
+	if len(s) > 160 {
+		return s[:160] + "..."
+	}
+	return s
 }
 
 // settle loads every principal once through an un-marked handle so that computed channels and roles
@@ -425,6 +547,9 @@ func (wd *vfC11World) settle() error {
 	}
 	// a private copy: the operation may replace h.user after a successful write
 	wd.h = &DatabaseCollectionWithUser{DatabaseCollection: h.DatabaseCollection, user: h.user}
+	if err := wd.recordLeaves(); err != nil {
+		return err
+	}
 	if err := wd.env.WaitCache(); err != nil {
 		return err
 	}
@@ -476,7 +601,31 @@ func vfC11MakeOp(sc vfC11Scenario) vfC11Op {
 				return rev, err
 			},
 			check: func(wd *vfC11World, res any, grants bool) string {
-				return wd.checkDoc("d1", res.(string), vfC11DocState{Deleted: true}, true, grants)
+				// with a second live leaf the tombstoned winner hands over to that leaf
+				return wd.checkDoc("d1", res.(string), vfC11DocState{Deleted: true}, !sc.Branch, grants)
+			}}
+	case "branch-delete":
+		// tombstone the non-winning leaf
+		return vfC11Op{
+			run: func(wd *vfC11World) (any, error) {
+				rev, _, err := wd.h.DeleteDoc(wd.mctx, "d1", DocVersion{RevTreeID: wd.otherRev})
+				return rev, err
+			},
+			check: func(wd *vfC11World, res any, grants bool) string {
+				return wd.checkDoc("d1", res.(string), vfC11DocState{Deleted: true}, false, false)
+			}}
+	case "branch-update":
+		// a child on the non-winning leaf
+		st := sc.New
+		return vfC11Op{grant: st.Grant,
+			run: func(wd *vfC11World) (any, error) {
+				body := vfC11Body(st)
+				body[BodyRev] = wd.otherRev
+				rev, _, err := wd.h.Put(wd.mctx, "d1", body)
+				return rev, err
+			},
+			check: func(wd *vfC11World, res any, grants bool) string {
+				return wd.checkDoc("d1", res.(string), st, false, grants)
 			}}
 	case "push":
 		st := sc.New
@@ -717,13 +866,13 @@ func (wd *vfC11World) checkDoc(id, rev string, st vfC11DocState, mustBeCurrent b
 		}
 		// outcome-unknown write: accept whatever new child of the previous current revision is there
 		// (the revision id of a retried write is not always the id of the un-retried one)
-		prev := ""
-		if id == "d1" {
-			prev = wd.curRev
+		for _, r := range vfSortedKeys(doc.History) {
+			if !wd.knownRevs[r] && doc.History[r].Parent == wd.targetRev {
+				rev = r
+			}
 		}
-		rev = doc.GetRevTreeID()
-		if rev == prev || doc.History[rev] == nil || doc.History[rev].Parent != prev {
-			return fmt.Sprintf("current revision of %s is %s, which is not a new child of %q", id, rev, prev)
+		if rev == "" {
+			return fmt.Sprintf("%s (current %s) has no new child of %q", id, doc.GetRevTreeID(), wd.targetRev)
 		}
 	}
 	info, ok := doc.History[rev]
@@ -1256,13 +1405,16 @@ func vfC11Execute(t testing.TB, sc vfC11Scenario, op vfC11Op, faults map[int]vs.
 		st.classes["outcome=timeout"]++
 		if len(diff) == 0 {
 			st.classes["timeout=pre"]++
+			if msg := wd.checkLeaves(); msg != "" {
+				return run, fmt.Sprintf("after a timeout the bucket is unchanged but %s [%s]", msg, desc), nil
+			}
 			break
 		}
 		res := baseRes
 		switch sc.Kind {
 		case "session-create":
 			res = vfC11NewSessionID(pre, post)
-		case "create", "update", "delete", "attach-new", "attach-drop":
+		case "create", "update", "delete", "attach-new", "attach-drop", "branch-update", "branch-delete":
 			res, wd.anyNewRev = "", true
 		}
 		if msg := op.check(wd, res, false); msg != "" && !gate(relaxState) {
@@ -1273,6 +1425,9 @@ func vfC11Execute(t testing.TB, sc vfC11Scenario, op vfC11Op, faults map[int]vs.
 		st.classes["outcome=error"]++
 		if len(diff) > 0 && !gate(relaxState) {
 			return run, fmt.Sprintf("operation failed (%v) but left the bucket changed:\n%s\n[%s]", run.err, strings.Join(diff, "\n"), desc), nil
+		}
+		if msg := wd.checkLeaves(); msg != "" {
+			return run, fmt.Sprintf("operation failed (%v) but %s [%s]", run.err, msg, desc), nil
 		}
 		if s1 > s0 {
 			st.classes["error-after-reserving-sequence"]++
